@@ -30,7 +30,8 @@ Theorem C01_push : forall c v u xs t k,
   (vlen v < vcap v \/ grow_ok c v (vcap v + 1)) ->
   exists v' u',
     push_unchecked c (VBytes (enc (szn c) t) k) (v, u) = Ok tt (v', u') /\
-    Rep c v' (sp_push t xs) /\ vbk v' = vbk v /\ same_user u u'.
+    Rep c v' (sp_push t xs) /\ vbk v' = vbk v /\ same_user u u' /\
+    (vlen v < vcap v -> vcap v' = vcap v /\ vgen v' = vgen v).
 Proof. exact push_ok. Qed.
 
 Theorem C01_insert : forall c v u xs t k i,
@@ -38,7 +39,8 @@ Theorem C01_insert : forall c v u xs t k i,
   (vlen v < vcap v \/ grow_ok c v (vcap v + 1)) ->
   exists v' u',
     insert_unchecked c (N.of_nat i) (VBytes (enc (szn c) t) k) (v, u) = Ok tt (v', u') /\
-    Rep c v' (sp_insert i t xs) /\ vbk v' = vbk v /\ same_user u u'.
+    Rep c v' (sp_insert i t xs) /\ vbk v' = vbk v /\ same_user u u' /\
+    (vlen v < vcap v -> vcap v' = vcap v /\ vgen v' = vgen v).
 Proof. exact insert_ok. Qed.
 
 (** typed view and erased API agree (the two compile-time arms compute the same state) *)
